@@ -13,7 +13,7 @@ for NAME in "$@"; do
   if [ -n "$failed" ]; then
     # load-sensitive tests (ping latency bounds, 10/25 min package timeouts) fail on a busy machine: run the failed ones alone
     echo "rerun alone: $failed" >> /verif/seeded/$NAME/suite.log
-    (cd $WT && go test -vet=off -count=1 -run "^($failed)\$" . 2>&1 | grep -E "^(ok|FAIL|--- FAIL)" | sed 's/^/rerun: /') >> /verif/seeded/$NAME/suite.log 2>&1
+    (cd $WT && go test -vet=off -count=1 -run "^($failed)\$" ./... 2>&1 | grep -v "no tests to run\|no test files" | grep -E "^(ok|FAIL|--- FAIL)" | sed 's/^/rerun: /') >> /verif/seeded/$NAME/suite.log 2>&1
   fi
   echo "$NAME: $(grep -c '^ok' /verif/seeded/$NAME/suite.log) ok, $(grep -c '^FAIL\|^--- FAIL' /verif/seeded/$NAME/suite.log) fail"
   git -C $WT reset -q --hard; git -C $WT clean -fdq
